@@ -45,6 +45,14 @@ func c09Gen(seed uint64, run int, tier string) *Case {
 		c.Cfg["seg"] = rt.SegAll
 		c.Cfg["maxsteps"] = int64(n)*80 + 100000
 		c.Cfg["lrcallers"] = int64(r.Pick(1, 1, 3))
+		if run%(2*every) == 0 && (tier == "thorough" || run%1000 == 100) {
+			// wide long run: 64 requests in flight at a time, so that most request slots overflow the client's
+			// 16-slot cache and their tags go back through the pool; more than 65 535 such frees must not exhaust it
+			c.Stratum = "long-run-wide"
+			c.Cfg["lrcallers"], c.Cfg["lrwidth"] = 1, 64
+			c.Cfg["longrun"] = 100000
+			c.Cfg["maxsteps"] = 100000*60 + 100000
+		}
 		return c
 	}
 	c.Stratum = "concurrent"
@@ -147,6 +155,43 @@ func c09Exec(x *Ctx) {
 		st.clnt = clnt
 		if longrun > 0 {
 			k := int(c.cfg("lrcallers"))
+			if w := int(c.cfg("lrwidth")); w > 0 {
+				// one caller keeps w requests in flight through the non-blocking interface and frees them together:
+				// all but 16 of the slots overflow the client's cache in every round
+				g := rt.Go(rt.SiteSpawn, func() {
+					rt.SetName("longrun-wide")
+					done := make(chan *go9p.Req, w)
+					want := statFor(clnt.Root.Fid).Name
+					for i := 0; i < longrun; i += w {
+						reqs := make([]*go9p.Req, w)
+						for j := range reqs {
+							r := clnt.ReqAlloc()
+							r.Tc = clnt.NewFcall()
+							r.Done = done
+							if err := go9p.PackTstat(r.Tc, clnt.Root.Fid); err == nil {
+								err = clnt.Rpcnb(r)
+							}
+							if err != nil {
+								x.Violate("c1-failed", "request %d of the wide long run could not be issued: %v", i+j, err)
+								return
+							}
+							reqs[j] = r
+						}
+						for range reqs {
+							r := <-done
+							if r.Err != nil || r.Rc == nil || r.Rc.Type != go9p.Rstat || r.Rc.Dir.Name != want {
+								x.Violate("c1-content", "a call of round %d of the wide long run failed or returned a wrong stat: %v", i/w, r.Err)
+								return
+							}
+						}
+						for _, r := range reqs {
+							clnt.ReqFree(r)
+						}
+					}
+				})
+				st.gs = append(st.gs, g)
+				return
+			}
 			for j := 0; j < k; j++ {
 				j := j
 				g := rt.Go(rt.SiteSpawn, func() {
@@ -227,10 +272,11 @@ func c09Exec(x *Ctx) {
 	// (the client keeps up to 16 request slots with their tags cached)
 	// (judged in the long-run stratum only: with more callers than cached slots the pool hands tags out
 	// first-in first-out, so under high concurrency many different values are legitimately seen)
-	if lim := peer.MaxOutst + 16 + len(st.gs); longrun > 0 && len(distinctTags) > lim+8 {
+	if lim := peer.MaxOutst + 16 + len(st.gs); longrun > 0 && c.cfg("lrwidth") == 0 && len(distinctTags) > lim+8 {
 		x.Violate("c3-tags-not-recycled", "%d distinct tag values were used although at most %d calls were ever outstanding (%d requests in all)", len(distinctTags), peer.MaxOutst, len(peer.Reqs))
 	}
 	x.ProbeN("calls", len(peer.Reqs))
+	x.ProbeN("distinct-tag-values", len(distinctTags))
 	x.FaultN("seg-split", cc.In.Splits+cs.In.Splits)
 	x.FaultN("coalesce", cc.In.Coalesced+cs.In.Coalesced)
 }
